@@ -9,13 +9,18 @@ import (
 
 	"pgregory.net/rapid"
 
+	"github.com/bronlabs/bron-crypto/pkg/base/algebra"
+	"github.com/bronlabs/bron-crypto/pkg/base/curves/k256"
 	"github.com/bronlabs/bron-crypto/pkg/base/nt/modular"
 	"github.com/bronlabs/bron-crypto/pkg/base/nt/num"
 	"github.com/bronlabs/bron-crypto/pkg/base/nt/znstar"
 	"github.com/bronlabs/bron-crypto/pkg/base/utils/algebrautils"
 	"github.com/bronlabs/bron-crypto/pkg/commitments/intcom"
 	"github.com/bronlabs/bron-crypto/pkg/encryption/paillier"
+	"github.com/bronlabs/bron-crypto/pkg/proofs/cggmp21/affg"
+	"github.com/bronlabs/bron-crypto/pkg/proofs/cggmp21/affgstar"
 	"github.com/bronlabs/bron-crypto/pkg/proofs/cggmp21/blummod"
+	"github.com/bronlabs/bron-crypto/pkg/proofs/cggmp21/dec"
 	"github.com/bronlabs/bron-crypto/pkg/proofs/cggmp21/enc"
 	"github.com/bronlabs/bron-crypto/pkg/proofs/cggmp21/fac"
 	"github.com/bronlabs/bron-crypto/pkg/proofs/paillier/nthroot"
@@ -25,6 +30,7 @@ import (
 	"github.com/bronlabs/bron-crypto/pkg/proofs/sigma/compiler"
 	"github.com/bronlabs/bron-crypto/pkg/proofs/sigma/compiler/fiatshamir"
 	"verif/harness/vlib"
+	"verif/harness/vlib/lx"
 )
 
 // ---- key material from the prime fixtures, through the library's constructors ----------------
@@ -149,7 +155,8 @@ func (h heavySpec) String() string {
 	return fmt.Sprintf("{%s %s/%d[%d,+%d] seed=%d}", h.Kind, h.PK, 2*h.Bits, h.I, h.D, h.Seed)
 }
 
-var heavyKinds = []string{"nthroot", "nthroot", "range", "range", "prm", "prm", "cggmp21-enc", "cggmp21-enc", "cggmp21-fac", "cggmp21-fac", "cggmp21-blummod", "cggmp21-blummod"}
+var heavyKinds = []string{"nthroot", "nthroot", "range", "range", "prm", "prm", "cggmp21-enc", "cggmp21-enc", "cggmp21-fac", "cggmp21-fac", "cggmp21-blummod", "cggmp21-blummod",
+	"cggmp21-affg", "cggmp21-affgstar", "cggmp21-dec"}
 
 func drawHeavy(t *rapid.T) heavySpec {
 	h := heavySpec{
@@ -162,6 +169,10 @@ func drawHeavy(t *rapid.T) heavySpec {
 	}
 	if vlib.Thorough() && rapid.IntRange(0, 3).Draw(t, "big") == 0 {
 		h.Bits = 1024
+	}
+	switch h.Kind {
+	case "cggmp21-affg", "cggmp21-affgstar", "cggmp21-dec":
+		h.Bits = 1024 // l = 256, eps = 512, l' = 1280 need moduli of at least 1792 bits
 	}
 	if h.Kind == "cggmp21-blummod" && h.PK == "ord" {
 		h.PK = "blum"
@@ -390,6 +401,8 @@ func buildHeavy(h heavySpec) inst {
 			},
 		}
 		return p.inst("cggmp21-blummod", group, nil)
+	case "cggmp21-affg", "cggmp21-affgstar", "cggmp21-dec":
+		return buildAff(h, group)
 	}
 	panic("harness: unknown heavy kind " + h.Kind)
 }
@@ -411,4 +424,164 @@ func TestHeavy(t *testing.T) {
 			runSigma(t, test, in, h.String(), []string{"soundness", "hvzk", "hvzk", "interactive", "zk", "zk:sid", "zk:stmt"})
 		}
 	})
+}
+
+// ---- CGGMP21 affine-operation and decryption proofs over k256 (2048-bit moduli) ----------------
+
+type (
+	kG = *k256.Point
+	kB = *k256.BaseFieldElement
+	kS = *k256.Scalar
+)
+
+// affValues are the drawn values behind one statement of affg / affgstar / dec.
+type affValues struct {
+	x, y           *num.Int
+	xPoint, sPoint kG
+	c, d, bigY     *paillier.Ciphertext
+	yN1            *paillier.Plaintext
+	rho, rhoY      *paillier.Nonce
+	n0, n1         *paillier.PublicKey
+}
+
+func signedFrom(r io.Reader, bits int) *big.Int {
+	buf := make([]byte, bits/8+1)
+	_, _ = io.ReadFull(r, buf)
+	v := new(big.Int).SetBytes(buf[1:])
+	if buf[0]&1 == 1 {
+		v.Neg(v)
+	}
+	return v
+}
+
+// affDraw builds D = C^x * Enc_N0(y; rho), Y = Enc_N1(y; rhoY), X = g^x (affg, affgstar) resp.
+// D = Enc_N0(y; rho) * K^(-x), S = g^y (dec; c plays the role of K), as the repository's tests do.
+func affDraw(h heavySpec, i int, decShape bool) *affValues {
+	curve := k256.NewCurve()
+	fld := algebra.StructureMustBeAs[algebra.PrimeField[kS]](curve.ScalarStructure())
+	q := lx.Order(fld)
+	r := vlib.NewPRNG(h.Seed, fmt.Sprintf("aff/%d", i))
+	k0, k1 := h.key(0), h.key(1)
+	v := &affValues{n0: k0.pk, n1: k1.pk}
+	xb, yb := signedFrom(r, 248), signedFrom(r, 1024)
+	if decShape {
+		yb = signedFrom(r, 248)
+	}
+	v.x, v.y = must(num.Z().FromBig(xb)), must(num.Z().FromBig(yb))
+	v.xPoint = curve.ScalarBaseMul(lx.FE(fld, new(big.Int).Mod(xb, q)))
+	v.sPoint = curve.ScalarBaseMul(lx.FE(fld, new(big.Int).Mod(yb, q)))
+	v.yN1 = must(paillier.NewPlaintextSymmetric(v.y, k1.n))
+	v.rhoY = must(k1.pk.SampleNonce(r))
+	v.bigY = must(k1.pk.EncryptWithNonce(v.yN1, v.rhoY))
+	cPt := must(paillier.NewPlaintextSymmetric(must(num.Z().FromBig(signedFrom(r, 256))), k0.n))
+	v.c = must(k0.pk.EncryptWithNonce(cPt, must(k0.pk.SampleNonce(r))))
+	v.rho = must(k0.pk.SampleNonce(r))
+	encY := must(k0.pk.EncryptWithNonce(must(paillier.NewPlaintextSymmetric(v.y, k0.n)), v.rho))
+	cX := must(k0.pk.CiphertextScalarOp(v.c, v.x))
+	if decShape {
+		v.d = must(k0.pk.CiphertextOp(encY, must(k0.pk.CiphertextOpInv(cX))))
+	} else {
+		v.d = must(k0.pk.CiphertextOp(cX, encY))
+	}
+	return v
+}
+
+func buildAff(h heavySpec, group string) inst {
+	curve := k256.NewCurve()
+	const l, lPrime, eps = 256, 1280, 512
+	k0 := h.key(0)
+	one := must(paillier.NewPlaintextFromNat(natOf(big.NewInt(1)), k0.n))
+	switch h.Kind {
+	case "cggmp21-affg":
+		type (
+			X = *affg.Statement[kG, kB, kS]
+			W = *affg.Witness
+			A = *affg.Commitment[kG, kB, kS]
+			S = *affg.State
+			Z = *affg.Response
+		)
+		rp := h.rp(2)
+		p := &part[X, W, A, S, Z]{
+			shape: "AFFG", compilers: fsOnly,
+			mk: func(r io.Reader) (sigma.Protocol[X, W, A, S, Z], error) {
+				q, err := affg.NewProtocol(rp.ck, l, lPrime, eps, curve, r)
+				if err != nil {
+					return nil, err
+				}
+				return q, nil
+			},
+			fresh: func(i int) (X, W) {
+				v := affDraw(h, i, false)
+				return must(affg.NewStatement(v.n0, v.n1, v.c, v.d, v.bigY, v.xPoint)), must(affg.NewWitness(v.x, v.yN1, v.rho, v.rhoY))
+			},
+			alts: func(X) []negStmt[X] {
+				v := affDraw(h, 0, false)
+				return []negStmt[X]{
+					{"stmt-alt:D", must(affg.NewStatement(v.n0, v.n1, v.c, must(v.n0.Shift(v.d, one)), v.bigY, v.xPoint))},
+					{"stmt-alt:X", must(affg.NewStatement(v.n0, v.n1, v.c, v.d, v.bigY, v.xPoint.Op(curve.Generator())))},
+				}
+			},
+		}
+		return p.inst("cggmp21-affg", group, nil)
+	case "cggmp21-affgstar":
+		type (
+			X = *affgstar.Statement[kG, kB, kS]
+			W = *affgstar.Witness
+			A = *affgstar.Commitment[kG, kB, kS]
+			S = *affgstar.State
+			Z = *affgstar.Response
+		)
+		p := &part[X, W, A, S, Z]{
+			shape: "AFFG*", compilers: fsOnly,
+			mk: func(r io.Reader) (sigma.Protocol[X, W, A, S, Z], error) {
+				q, err := affgstar.NewProtocol(l, lPrime, eps, curve, r)
+				if err != nil {
+					return nil, err
+				}
+				return q, nil
+			},
+			fresh: func(i int) (X, W) {
+				v := affDraw(h, i, false)
+				return must(affgstar.NewStatement(v.n0, v.n1, v.c, v.d, v.bigY, v.xPoint)), must(affgstar.NewWitness(v.x, v.yN1, v.rho, v.rhoY))
+			},
+			alts: func(X) []negStmt[X] {
+				v := affDraw(h, 0, false)
+				return []negStmt[X]{
+					{"stmt-alt:D", must(affgstar.NewStatement(v.n0, v.n1, v.c, must(v.n0.Shift(v.d, one)), v.bigY, v.xPoint))},
+					{"stmt-alt:X", must(affgstar.NewStatement(v.n0, v.n1, v.c, v.d, v.bigY, v.xPoint.Op(curve.Generator())))},
+				}
+			},
+		}
+		return p.inst("cggmp21-affgstar", group, nil)
+	default:
+		type (
+			X = *dec.Statement[kG, kB, kS]
+			W = *dec.Witness
+			A = *dec.Commitment[kG, kB, kS]
+			S = *dec.State
+			Z = *dec.Response
+		)
+		p := &part[X, W, A, S, Z]{
+			shape: "DEC", compilers: fsOnly,
+			mk: func(r io.Reader) (sigma.Protocol[X, W, A, S, Z], error) {
+				q, err := dec.NewProtocol(l, lPrime, eps, curve.Generator(), r)
+				if err != nil {
+					return nil, err
+				}
+				return q, nil
+			},
+			fresh: func(i int) (X, W) {
+				v := affDraw(h, i, true)
+				return must(dec.NewStatement(v.n0, v.c, v.xPoint, v.d, v.sPoint)), must(dec.NewWitness(v.x, v.y, v.rho))
+			},
+			alts: func(X) []negStmt[X] {
+				v := affDraw(h, 0, true)
+				return []negStmt[X]{
+					{"stmt-alt:D", must(dec.NewStatement(v.n0, v.c, v.xPoint, must(v.n0.Shift(v.d, one)), v.sPoint))},
+					{"stmt-alt:S", must(dec.NewStatement(v.n0, v.c, v.xPoint, v.d, v.sPoint.Op(curve.Generator())))},
+				}
+			},
+		}
+		return p.inst("cggmp21-dec", group, nil)
+	}
 }
